@@ -145,6 +145,20 @@ func genHistory(r *hx.Rand, idx int, tier, mode string) *hx.Case {
 		if r.Chance(1, 2) && n2 == n {
 			n2 = n%4 + 1
 		}
+		if mode == "c06" && r.Chance(1, 2) {
+			// one or two completed checkpoints before the rescale whose retention update reaches a random subset of the
+			// operators: their checkpoints files then list different ids at different positions
+			for k := r.Range(1, 2); k > 0; k-- {
+				var subset []int
+				for i := 0; i < n; i++ {
+					if r.Chance(1, 2) {
+						subset = append(subset, i)
+					}
+				}
+				ops = append(ops, hx.Op(op{Op: "ckpt", Perm: subset}))
+				genEvents(r, &ops, nkeys, r.Range(0, 8), &val, &wm, wm)
+			}
+		}
 		o := op{Op: "rescale", N: n2, Perm: genPerm(r, n)}
 		if mode == "c14" {
 			o.Op = "save"
